@@ -185,6 +185,7 @@ func runCtlScenario(w *ndWriter, seed int64, variant string, idx int) bool {
 			}
 			if i == hangAt {
 				a.Gate = make(chan struct{})
+				a.Linger = time.Duration(20+rng.Intn(60)) * time.Millisecond
 			}
 			srv.lists = append(srv.lists, a)
 		}
